@@ -30,7 +30,7 @@ LEVEL_TEXT = ("every sequence of palette rows up to the length bound is fitted u
               "(that row fitted alone, batch size 1); the hook's batch-event log must match the boring model (number of batches, padding, each row written once)")
 LEVEL_NOTE = "two systems (3x3 unique optimum; 2x3 underdetermined with K, baseline, per-sample weights, mixed lower bounds); excitation explored to a smaller bound because of its cost"
 KE = ("exc", "msg", "procedure", "batch")
-KV = ("procedure", "batch", "config", "what", "solver")
+KV = ("procedure", "batch", "config", "what", "solver", "layout")
 
 
 def _v(rec, clause, sig, *a, **k):
@@ -189,15 +189,21 @@ def run_unit(unit, rec):
             bs_menu = list(range(1, L + 3)) + ["full", "total", None, "omit"]
             if proc == "excitation" and unit["tier"] == "quick":
                 bs_menu = [1, 2, 3, "full", None]
-            for bs in bs_menu:
+            bs_items = [(b_, "C") for b_ in bs_menu]
+            if nS == L and nS > 1 and proc != "excitation":
+                # the same rows in column-major memory (e.g. the transpose of a (channels x samples) array)
+                bs_items += [(b_, "F") for b_ in bs_menu if b_ not in ("omit", "total")]
+            Bt_c, Wt_c = Bt, Wt
+            for bs, layout in bs_items:
+                Bt, Wt = (Bt_c, Wt_c) if layout == "C" else (np.asfortranarray(Bt_c), np.asfortranarray(Wt_c))
                 if bs == "omit" and nS > 1 and tail[0] != 0:
                     continue
                 if bs == "total" and nS != 2:
                     continue
                 eff = nS if bs in ("full", "total") else (1 if bs in (None, "omit") else bs)
                 bcls = "bs=1" if eff == 1 else ("bs>n" if eff > nS else ("bs|n" if nS % eff == 0 else "bs-not-dividing-n"))
-                sig = dict(base, batch=bcls)
-                case = dict(seq=list(seq), batch_size=bs)
+                sig = dict(base, batch=bcls, layout=layout)
+                case = dict(seq=list(seq), batch_size=bs, layout=layout)
                 rec.path()
                 rec.trans()
                 if _verif:
@@ -210,7 +216,7 @@ def run_unit(unit, rec):
                     rec.outcome("%s/exception" % bcls)
                     continue
                 if nS > 1 or eff != 1:
-                    rec.distinct((cfg, proc, sol, seq, str(bs)))
+                    rec.distinct((cfg, proc, sol, seq, str(bs), layout))
                 # batch-event model vs hook log (coverage + localisation)
                 if _verif:
                     ev = [e for e in _verif.drain() if e.get("kind") == "solve" and e.get("n_samples") == nS]
